@@ -289,7 +289,7 @@ func genSteps(r *core.Rand, st pred.Style, n int, cont bool) []pred.GroupStep {
 		}
 		var u *pred.Unit
 		for try := 0; ; try++ {
-			u = pred.RandUnit(r, st)
+			u = randUnit(r, st)
 			if op != "not" || u.Neg != nil {
 				break
 			}
@@ -297,6 +297,10 @@ func genSteps(r *core.Rand, st pred.Style, n int, cont bool) []pred.GroupStep {
 				op = "where"
 				break
 			}
+		}
+		if op == "where" && (u.Form == "exprs" || u.Form == "clause") && r.Bool() {
+			// plain expressions handed to Clauses are a unit like those handed to Where
+			u = viaClauses(u)
 		}
 		steps = append(steps, pred.GroupStep{Op: op, U: u})
 	}
@@ -309,7 +313,7 @@ func genChain(r *core.Rand, st pred.Style, nrows int) chainCase {
 	cc.fin = r.Intn(len(finNames))
 	cc.variant = r.Intn(12)
 	if strings.HasSuffix(finNames[cc.fin], "Inline") {
-		cc.inline = pred.RandUnit(r, st)
+		cc.inline = randUnit(r, st)
 		if r.Chance(1, 12) {
 			cc.inline = emptyUnit(r)
 		}
@@ -323,7 +327,7 @@ func genChain(r *core.Rand, st pred.Style, nrows int) chainCase {
 func (cc chainCase) desc() string {
 	parts := []string{}
 	for _, s := range cc.steps {
-		parts = append(parts, fmt.Sprintf("%s(%s)", strings.Title(s.Op), s.U.Desc))
+		parts = append(parts, fmt.Sprintf("%s(%s)", opName(s), s.U.Desc))
 	}
 	d := "db." + strings.Join(parts, ".") + "." + finNames[cc.fin]
 	if v := cc.finName(); v != finNames[cc.fin] {
@@ -386,15 +390,7 @@ func (cc chainCase) expected() *pred.Node {
 func build(cc chainCase, start *gorm.DB) *gorm.DB {
 	db := start
 	for _, s := range cc.steps {
-		q, args := s.U.Query(H.DB)
-		switch s.Op {
-		case "where":
-			db = db.Where(q, args...)
-		case "not":
-			db = db.Not(q, args...)
-		default:
-			db = db.Or(q, args...)
-		}
+		db = applyStep(db, s)
 	}
 	return db
 }
